@@ -72,10 +72,16 @@ Proof. vm_compute. repeat split; reflexivity. Qed.
    the elevator map of the PER-MESSAGE extension value (ForMessage), which no other call can reach.  The complete list of
    assignments through receivers / pointer, map and slice parameters (all of them into objects the call itself created) is
    in Gen/Footprint.v [shared_writes] for the reader; it is not pinned, because routine refactoring changes it. *)
-Example C18_critical_writes_accounted : critical_writes = [("extensions/nyctalerts/nyctalerts.go", "e.elevatorAlerts[newID]")].
-Proof. reflexivity. Qed.
+(* every entry the translator extracts from the CURRENT source is one of the accounted ones (an entry that disappears - a variable
+   turned into a function, a loop rewritten - needs no new account; a new entry breaks this) *)
+Example C18_critical_writes_accounted : let accounted : list (string * string) := [("extensions/nyctalerts/nyctalerts.go", "e.elevatorAlerts[newID]")] in
+  forallb (fun x => existsb (fun y => String.eqb (fst x) (fst y) && String.eqb (snd x) (snd y)) accounted) (critical_writes) = true.
+Proof. vm_compute. reflexivity. Qed.
 (* the package-level variables: exactly the read-only regexps, tables and templates the programs read *)
-Example C18_package_vars_accounted : map snd package_vars = [
+(* every entry the translator extracts from the CURRENT source is one of the accounted ones (an entry that disappears - a variable
+   turned into a function, a loop rewritten - needs no new account; a new entry breaks this) *)
+Example C18_package_vars_accounted : let accounted : list string := [
   "elevatorAlertIDRegex"; "priortyToEffect"; "timetabledNoServicePriorities"; "TripIDRegex";
-  "funcMap"; "stopTimesCsv"; "stopTimesCsvTmpl"; "tripsCsv"; "tripsCsvTmpl"; "startDateRegex"; "startTimeRegex"].
-Proof. reflexivity. Qed.
+  "funcMap"; "stopTimesCsv"; "stopTimesCsvTmpl"; "tripsCsv"; "tripsCsvTmpl"; "startDateRegex"; "startTimeRegex"] in
+  forallb (fun x => existsb (String.eqb x) accounted) (map snd package_vars) = true.
+Proof. vm_compute. reflexivity. Qed.
